@@ -10,7 +10,7 @@ import random
 from coqemit import cbool, clist, copt, cpair, cstr, cstrlist, cZ, outcome
 
 ID = "C07"
-FACTS = ["Subgroups"]
+FACTS = ["Subgroups", "SubgroupsSrc"]
 COQ_HEADER = "From SPV Require Import CorrDefs.CorrC07."
 COQ_CASE_TYPE = "case"
 RULE = ("subgroup trees built from generated source text (`simple_parsing.subgroups`, `functools.partial`, frozen dataclass instances): "
@@ -109,8 +109,11 @@ def _mk_alt(rng, dc):
     kind = rng.choice(["type", "type", "partial", "inst"])
     if kind == "inst" and dc["subs"] and rng.random() < 0.7:
         kind = rng.choice(["type", "partial"])      # frozen instances of classes that have subgroup fields themselves: rarer
+    if kind != "inst" and rng.random() < 0.12:
+        # a plain function with a return annotation (`def mk_K(**kw) -> "K"`) instead of the class, also inside the partial
+        kind = {"type": "func", "partial": "pfunc"}[kind]
     ov = []
-    if kind == "partial":
+    if kind in ("partial", "pfunc"):
         ov = [[n, _over(rng, n, 500 + d)] for n, d in dc["leaves"] if rng.random() < 0.6]
     elif kind == "inst":
         ov = [[n, _over(rng, n, 700 + d, 0.25)] for n, d in dc["leaves"]]
@@ -401,7 +404,9 @@ def falsy_cases(rng, tier):
                 ["mixed", alt("partial", A, [("x", 0), ("name", 2), ("tags", 0), ("lr", 9)])],
                 ["one", alt("partial", A, [("x", 8), ("flag", 1), ("name", 3), ("ratio", 2), ("tags", 3)])],
                 ["izero", alt("inst", A, [("x", 0), ("flag", 0), ("name", 0), ("ratio", 0), ("tags", 0), ("lr", 0)])],
-                ["plain", alt("type", A)]]
+                ["plain", alt("type", A)],
+                ["fn", alt("func", A)],
+                ["pfn", alt("pfunc", A, [("x", 0), ("flag", 0), ("name", 2), ("lr", 8)])]]
 
     def holder(name, default, leaves, field="hp"):
         return {"name": name, "leaves": [list(x) for x in leaves], "subs": [{"f": field, "default": default, "dkind": "key", "alts": table()}]}
@@ -531,8 +536,11 @@ def _alt_expr(alt):
     n = alt["dc"]["name"]
     if alt["kind"] == "type":
         return n
-    if alt["kind"] == "partial":
-        return f"functools.partial({n}, " + ", ".join(f"{k}={lit(k, v)}" for k, v in alt["ov"]) + ")"
+    if alt["kind"] == "func":
+        return f"mk_{n}"
+    if alt["kind"] in ("partial", "pfunc"):
+        fn = n if alt["kind"] == "partial" else f"mk_{n}"
+        return f"functools.partial({fn}, " + ", ".join(f"{k}={lit(k, v)}" for k, v in alt["ov"]) + ")"
     return _inst_expr(alt["dc"], dict(alt["ov"]))
 
 
@@ -552,6 +560,7 @@ def _sg_lines(sg):
 def source(tree):
     out = []
     _classes_postorder(tree, out, set())
+    fns = {a["dc"]["name"] for a in _alts(tree) if a["kind"] in ("func", "pfunc")}
     lines = ["import functools", "from dataclasses import dataclass, field", "from typing import List, Union",
              "from simple_parsing import subgroups", ""]
     for dc in out:
@@ -567,6 +576,9 @@ def source(tree):
                 body += _sg_lines(sg)
         lines += body or ["    pass"]
         lines.append("")
+        if dc["name"] in fns:
+            # the library reads the dataclass off the (string) return annotation, resolved in the declaring frame's globals
+            lines += [f"def mk_{dc['name']}(**kw) -> \"{dc['name']}\":", f"    return {dc['name']}(**kw)", ""]
     return "\n".join(lines)
 
 
@@ -1182,7 +1194,9 @@ def csubs(subs):
 def calts(alts):
     out = "ANil"
     for k, a in reversed(alts):
-        src = {"type": "SType", "partial": f"(SPartial {cleaves(a['ov'])})", "inst": f"(SInst {cleaves(a['ov'])})"}[a["kind"]]
+        # a function returning the dataclass stands for the class (the library reads the class off its return annotation)
+        src = {"type": "SType", "func": "SType", "partial": f"(SPartial {cleaves(a['ov'])})", "pfunc": f"(SPartial {cleaves(a['ov'])})",
+               "inst": f"(SInst {cleaves(a['ov'])})"}[a["kind"]]
         out = f"(ACons {cstr(k)} {src} {cdc(a['dc'])} {out})"
     return out
 
